@@ -291,11 +291,28 @@ Inductive thrown :=
 | ThError (cap_name cap_msg : list Z)            (* object whose value is an ottoError *)
           (cur_name : option (list Z))           (* ToString of its current name/message, None = undefined *)
           (cur_msg : option (list Z))
+| ThDerived (proto_name proto_msg : list Z)      (* an object that is not an error itself but has one on its
+                                                    prototype chain (Sub.prototype = new Error()): the
+                                                    ottoError belongs to that prototype object *)
+            (cur_name : option (list Z))           (* what the thrown object's name / message resolve to *)
+            (cur_msg : option (list Z))
 | ThOther (tostring : list Z).                   (* anything else: caught.string() *)
 
+(* builtin_error.go builtinErrorToString (what caught.string() runs for an object
+   that inherits Error.prototype.toString): name defaults to "Error", message to "" *)
+Definition builtin_error_tostring (name msg : option (list Z)) : list Z :=
+  let n := match name with None => [69; 114; 114; 111; 114] | Some s => s end in
+  let m := match msg with None => [] | Some s => s end in
+  match n with
+  | [] => m
+  | _ => match m with [] => n | _ => n ++ [58; 32] ++ m end
+  end.
+
+(* catchPanic looks at the thrown object's own value only *)
 Definition uncaught_text (t : thrown) : list Z :=
   match t with
   | ThError n m _ _ => format n m
+  | ThDerived _ _ cn cm => builtin_error_tostring cn cm
   | ThOther s => s
   end.
 
